@@ -55,10 +55,18 @@ def basic_codes(ctx):
             ctx.violation('basic-rank', 'stabilizer rank != n-k or logicals dependent', rep)
 
 
+def code_args(code):
+    if hasattr(code, 'size') and not isinstance(code.size, int):
+        return tuple(code.size)
+    return (code.size,)
+
+
 def pauli_histories(ctx):
     """Histories on ONE lattice-Pauli object per trial: operations interleaved with to_bsf() / operator() reads.
     After every operation: to_bsf() == previous bsf XOR (the operation applied to a fresh Pauli), every site's
-    operator() letter agrees with the bsf bits, equality and copy() agree.  Model-free (implementation only)."""
+    operator() letter agrees with the bsf bits, equality and copy() agree; every third history starts from
+    new_pauli(published row).copy(): the copy is independent, the published matrices never change.
+    Model-free (implementation only)."""
     from qecsim.models.planar import PlanarCode
     from qecsim.models.toric import ToricCode
     from qecsim.models.rotatedplanar import RotatedPlanarCode
@@ -162,10 +170,27 @@ def pauli_histories(ctx):
             b = code.new_pauli().site('X', s_).to_bsf()
             nz = np.flatnonzero(b)
             pos[s_] = int(nz[0]) if len(nz) == 1 else None
+        snap = {nm: np.array(getattr(code, nm)).copy() for nm in ('stabilizers', 'logical_xs', 'logical_zs', 'logicals')}
         for trial in range(ctx.pick(12, 60)):
-            p = code.new_pauli()
-            cur = p.to_bsf().copy() if rng.random() < 0.7 else np.zeros(2 * n, dtype=int)
             hist = []
+            p0 = src = None
+            if trial % 3 == 2:
+                # a Pauli built on a published row (a view, by design), then copy() - the copy is the caller's to change
+                nm = rng.choice(['stabilizers', 'logical_xs', 'logical_zs', 'logicals'])
+                mat = getattr(code, nm)
+                ri = rng.randrange(len(mat))
+                src = mat[ri]
+                p0 = code.new_pauli(src)
+                p = p0.copy()
+                hist.append('new_pauli(%s[%d]).copy()' % (nm, ri))
+                if rng.random() < 0.4:
+                    p = p.copy()
+                    hist.append('copy()')
+                cur = snap[nm][ri].copy()
+                src_snap = cur.copy()
+            else:
+                p = code.new_pauli()
+                cur = p.to_bsf().copy() if rng.random() < 0.7 else np.zeros(2 * n, dtype=int)
             for step in range(rng.randint(2, 8)):
                 name, f = ops()
                 hist.append(name)
@@ -191,6 +216,16 @@ def pauli_histories(ctx):
                 if not (p == code.new_pauli(got.copy())) or not np.array_equal(p.copy().to_bsf(), got):
                     ctx.violation('pauli-eq-copy', 'equality / copy disagree with the bsf', rep)
                     break
+            rep = {'code': repr(code), 'history': list(hist)}
+            if p0 is not None and (not np.array_equal(p0.to_bsf(), src_snap) or not np.array_equal(src, src_snap)):
+                ctx.violation('pauli-copy-aliases', 'operations on a copy() changed the Pauli it was copied from / the array '
+                              'that Pauli was built on', rep)
+            changed = [nm for nm in snap if not np.array_equal(getattr(code, nm), snap[nm])
+                       or not np.array_equal(getattr(type(code)(*code_args(code)), nm), snap[nm])]
+            if changed:
+                ctx.violation('code-matrices-changed', 'the code\'s published %s changed after operations on Pauli copies '
+                              '(this and every later equal code now publishes them)' % ', '.join(changed), rep)
+                break
 
 
 def run(ctx):
@@ -199,6 +234,7 @@ def run(ctx):
                 'bijection evaluated on the implementation; translated integer kernels vs Python originals on a grid '
                 'inside the kernel. nontrivial = non-square or minimal size / argument-carrying case')
     lat_common.prepare(ctx)
+    lat_common.cold_queries(ctx)
     fams = lat_common.run_families(ctx, 'check_c07')
     basic_codes(ctx)
     pauli_histories(ctx)
